@@ -21,12 +21,16 @@ FLAGSETS = [  # (frozen, order, unsafe_hash, user_state)
 _N = [0]
 
 
-def _class_src(i, desc, flags, scope):
+def _class_src(i, desc, flags, scope, redecl=None):
     frozen, order, uhash, ustate = flags
     base = ""
     if desc["base"]:
         base = f"(_S[{desc['base']}])" if desc["baseform"] == "slotted" else f"(_P[{desc['base']}])"
     body = "".join(f"    c{i}f{k}: int = {10 * i + k}\n" for k in range(1, desc["nf"] + 1))
+    if redecl:
+        # the child declares a field of its base again, with another plain default (no new field: the slot
+        # formula of spec/Slotted.tla is unchanged, the name is already among FieldsOf(base))
+        body += f"    {redecl}: int = 999\n"
     if i % 2 == 0 and desc["nf"]:
         body = body.replace(f" = {10 * i + 1}\n", f" = dataclasses.field(default_factory=lambda: {10 * i + 1})\n", 1)
     if ustate:
@@ -68,7 +72,11 @@ def battery(C, modname):
     rec("new_pos", lambda: repr(C(*range(100, 100 + n))))
     rec("new_kw", lambda: repr(C(**{f: 7 for f in fs})))
     rec("new_toomany", lambda: repr(C(*range(n + 1))))
-    x, y, z = C(), C(), (C(*range(100, 100 + n)) if n else C())
+    try:
+        x, y, z = C(), C(), (C(*range(100, 100 + n)) if n else C())
+    except Exception as e:
+        out["construct"] = "raised:" + type(e).__name__
+        return out
     rec("eq", lambda: (x == y, x != y, x == z, x == 5))
     rec("lt", lambda: (x < z, z <= x))
     rec("hash", lambda: (hash(x) == hash(y), hash(x)))
@@ -87,7 +95,7 @@ def battery(C, modname):
     return out
 
 
-def run_history(hist, hid, flags, scope):
+def run_history(hist, hid, flags, scope, redeclare=False):
     """Materialise one decoration history twice: with classes.slotted, and as plain dataclasses."""
     from typelib.py import classes
     ms, mp = _new_module("s"), _new_module("p")
@@ -110,10 +118,13 @@ def run_history(hist, hid, flags, scope):
     ms._dec, mp._dec = dec_s, dec_p
     events = []
     for i, desc in enumerate(hist, 1):
-        src = _class_src(i, desc, flags, scope)
+        rd = None
+        if redeclare and desc["base"] and hist[desc["base"] - 1]["nf"]:
+            rd = f"c{desc['base']}f1"
+        src = _class_src(i, desc, flags, scope, rd)
         ev = {"hid": hid, "step": i, "desc": {k: desc[k] for k in ("name", "nf", "base", "baseform", "d", "w")},
               "res": "ok", "slots": [], "hasdict": False, "hasweak": False, "stack_after": 0, "mismatch": [],
-              "flags": list(flags), "scope": scope, "src": src}
+              "flags": list(flags), "scope": scope, "src": src, "redeclares": rd or ""}
         with warnings.catch_warnings():
             warnings.simplefilter("ignore")
             try:
@@ -130,12 +141,10 @@ def run_history(hist, hid, flags, scope):
         if ev["res"] == "ok":
             Cs, Cp = ms._S[i], mp._S[i]
             ev["slots"] = sorted(Cs.__dict__.get("__slots__", ()))
-            inst = Cs()
-            ev["hasdict"] = hasattr(inst, "__dict__")
-            try:
-                weakref.ref(inst); ev["hasweak"] = True
-            except TypeError:
-                ev["hasweak"] = False
+            # class-level layout facts (an instance may not even be constructible when the class is broken;
+            # that shows in the battery): instances have a __dict__ / are weakly referenceable
+            ev["hasdict"] = Cs.__dictoffset__ != 0
+            ev["hasweak"] = Cs.__weakrefoffset__ != 0
             bs, bp = battery(Cs, ms.__name__), battery(Cp, mp.__name__)
             ev["mismatch"] = sorted(f"{op}: slotted={bs.get(op)} plain={bp.get(op)}"[:200] for op in set(bs) | set(bp) if bs.get(op) != bp.get(op))
         events.append(ev)
@@ -155,7 +164,7 @@ def _violations(rejects, events):
         hist = [x["desc"] for x in events if x["hid"] == e["hid"] and x["step"] <= e["step"]]
         out.append(Violation(
             clause="Slotted." + r["clause"],
-            case={"hist": hist, "flags": e["flags"], "scope": e["scope"]},
+            case={"hist": hist, "flags": e["flags"], "scope": e["scope"], "redeclare": bool(e.get("redeclares"))},
             fields={"res": e["res"], "baseform": e["desc"]["baseform"] if e["desc"]["base"] else "none",
                     "d": e["desc"]["d"], "w": e["desc"]["w"], "frozen": e["flags"][0], "user_state": e["flags"][3],
                     "ops": sorted({m.split(":")[0] for m in e["mismatch"]})},
@@ -191,7 +200,7 @@ def run(ctx: Ctx) -> Outcome:
     for hid, h in enumerate(hists):
         flags = FLAGSETS[hid % len(FLAGSETS)]
         scope = "local" if hid % 3 == 2 else "module"
-        events += run_history(h, hid, flags, scope)
+        events += run_history(h, hid, flags, scope, redeclare=(hid % 4 == 1))
     tres, rejects = tlc.validate_trace("Slotted_Trace", "Slotted_Trace.cfg", [_slim(e) for e in events], timeout=3600)
     viol = _violations(rejects, events)
     drift = [{"event": _slim(events[p["drift"] - 1]), "model": p["model"]} for p in tres.printed
@@ -202,7 +211,7 @@ def run(ctx: Ctx) -> Outcome:
            "distinct_nontrivial": len(nontrivial), "histories": len(hists),
            "rule": "model: every decoration history of length<=3 over 2 names (thorough: 4 over one name); real: TLC-emitted complete "
                    "histories (one repeated name, length 3; two names, length 2, up to 2 fields) materialised with decorator syntax at "
-                   "module and function-local scope under 7 dataclass flag sets, each slotted class compared with its plain twin under "
+                   "module and function-local scope under 7 dataclass flag sets (every fourth history with the child re-declaring a field of its base), each slotted class compared with its plain twin under "
                    "the operation battery; non-trivial = decoration of a class with a base",
            "samples": [_slim(events[len(events) // 2])]}
     return Outcome(level="model_checking", coverage=cov, violations=viol, impl_drift=drift,
@@ -214,7 +223,7 @@ def replay(ctx: Ctx, rep: dict) -> Outcome:
     from typelib.py import classes
     classes._stack.clear()
     c = rep["case"]
-    ev = run_history(c["hist"], 0, tuple(c["flags"]), c["scope"])
+    ev = run_history(c["hist"], 0, tuple(c["flags"]), c["scope"], redeclare=c.get("redeclare", False))
     for e in ev:
         print(e["src"]); print("  ->", _slim(e))
     _, rejects = tlc.validate_trace("Slotted_Trace", "Slotted_Trace.cfg", [_slim(e) for e in ev])
